@@ -141,7 +141,7 @@ DeclC(b, p, fname, scope, parent, d) ==
                         res == me.name.src \o "Response"
                     IN [EmptyC EXCEPT !.methods = {[service |-> svc, name |-> me.name.src, input |-> sp \o "." \o req,
                                                     output |-> IF me.hasResponse THEN sp \o "." \o res ELSE "google.api.HttpBody",
-                                                    verb |-> me.verb, path |-> d.basePath \o PathText(me.path)]}]
+                                                    verb |-> me.verb, path |-> d.baseOut \o PathText(me.path)]}]
                        ++ MsgC(b, sf, p, sp, "", req, "object", me.request, <<>>)
                        ++ (IF me.hasResponse THEN MsgC(b, sf, p, sp, "", res, "object", me.response, <<>>) ELSE EmptyC)
             IN [EmptyC EXCEPT !.files = {[name |-> sf, pkg |-> sp]},
